@@ -27,12 +27,12 @@ import (
 	"sync"
 	"time"
 
-	awsv1 "github.com/aws/aws-sdk-go/aws"
-	"github.com/aws/aws-sdk-go/aws/request"
-	ddbv1 "github.com/aws/aws-sdk-go/service/dynamodb"
 	awsv2 "github.com/aws/aws-sdk-go-v2/aws"
 	ddbv2 "github.com/aws/aws-sdk-go-v2/service/dynamodb"
 	"github.com/aws/aws-sdk-go-v2/service/dynamodb/types"
+	awsv1 "github.com/aws/aws-sdk-go/aws"
+	"github.com/aws/aws-sdk-go/aws/request"
+	ddbv1 "github.com/aws/aws-sdk-go/service/dynamodb"
 	"github.com/aws/smithy-go"
 
 	"verif.local/harness/drivers/wiredrv/refcodec"
